@@ -48,6 +48,17 @@ func chance(t *rapid.T, pct int, label string) bool {
 	return n >= 128-(pct*128+50)/100
 }
 
+// uni draws an integer of [lo, hi] (almost) uniformly from fair bits.
+func uni(t *rapid.T, lo, hi int, label string) int {
+	n := 0
+	for i := 0; i < 6; i++ {
+		if rapid.Bool().Draw(t, label) {
+			n |= 1 << i
+		}
+	}
+	return lo + n%(hi-lo+1)
+}
+
 var richPool = []string{"a b", "x,y", "q;r", `say "hi"`, "it's", "a&b=c", "<tag>", "100%", "k: v", "#1", "A  B", "é ü", "x|y", "[1]", "$.x", "a\\b", "- a", "yes", "null"}
 
 func safeVal(t *rapid.T, label string) string {
@@ -146,7 +157,7 @@ func (g *pgen) skeleton() {
 	if g.concurrent {
 		nScen = rapid.IntRange(1, 2).Draw(t, "nScenariosC")
 	}
-	nCommon := rapid.IntRange(0, 3).Draw(t, "nCommon")
+	nCommon := uni(t, 0, 3, "nCommon")
 	var commons []string
 	for i := 0; i < nCommon; i++ {
 		commons = append(commons, fmt.Sprintf("r%d", i))
@@ -172,7 +183,7 @@ func (g *pgen) skeleton() {
 		}
 		sc.Steps = append(sc.Steps, first)
 		budget--
-		items := rapid.IntRange(0, 4).Draw(t, "nItems")
+		items := uni(t, 0, 4, "nItems")
 		for i := 0; i < items && budget > 0; i++ {
 			if chance(t, 20, "isSleep") {
 				ms := rapid.IntRange(1, 3).Draw(t, "sleepMs")
@@ -284,10 +295,13 @@ func (g *pgen) posts() {
 			default:
 				menu, names = headerExprs, headerVar
 			}
-			nm := rapid.IntRange(1, 3).Draw(t, "nMappings")
+			nm := uni(t, 1, 3, "nMappings")
 			seen := map[string]bool{}
 			for j := 0; j < nm; j++ {
-				e := rapid.SampledFrom(menu).Draw(t, "captureExpr")
+				e := menu[uni(t, 0, len(menu)-1, "captureExpr")]
+				if kind == scengen.PostJsonpath && j == 0 && chance(t, 30, "captureObj") {
+					e = "$.obj"
+				}
 				if seen[e] {
 					continue
 				}
@@ -442,7 +456,7 @@ func (g *pgen) pres() {
 				// the target) by a step that did not run before: the preprocessor then fails
 				pool := sortedKeys(g.before[r.Name])
 				dead := false
-				if !g.isEntry(r.Name) && !g.concurrent && !hasNext && chance(t, 4, "deadPre") {
+				if !g.isEntry(r.Name) && !g.concurrent && !hasNext && chance(t, 8, "deadPre") {
 					pool = nil
 					for _, q := range g.p.Requests {
 						if q.Name != r.Name && !g.before[r.Name][q.Name] {
@@ -548,19 +562,26 @@ func (g *pgen) templates() {
 		used := map[string]bool{}
 		pick := func(safeOnly, allowDead bool, label string) *si.Ref {
 			pool := live
-			if allowDead && len(dead) > 0 && chance(t, 6, label+"Dead") {
+			if allowDead && len(dead) > 0 && chance(t, 5, label+"Dead") {
 				pool = dead
 			}
-			var c []varInfo
+			var c, flow []varInfo
 			for _, v := range pool {
 				if !safeOnly || v.safe {
 					c = append(c, v)
+					if v.ref.Req != "" && v.ref.Req != r.Name {
+						flow = append(flow, v)
+					}
 				}
 			}
 			if len(c) == 0 {
 				return nil
 			}
-			v := c[rapid.IntRange(0, len(c)-1).Draw(t, label)]
+			// values set by earlier steps are what the property is about
+			if len(flow) > 0 && chance(t, 55, label+"Flow") {
+				c = flow
+			}
+			v := c[uni(t, 0, len(c)-1, label)]
 			ref := v.ref
 			if ref.Kind == si.RefSrcRow {
 				s := g.p.Source(ref.Source)
@@ -600,7 +621,7 @@ func (g *pgen) templates() {
 		canon := map[string]bool{}
 		for k := 0; k < nh; k++ {
 			name := rapid.SampledFrom(headerNames).Draw(t, "headerName")
-			if chance(t, 6, "specialHeaderName") {
+			if chance(t, 2, "specialHeaderName") {
 				name = rapid.SampledFrom([]string{"url", "body"}).Draw(t, "specialHeader")
 			}
 			if canon[si.CanonHeader(name)] {
@@ -636,6 +657,14 @@ func (g *pgen) templates() {
 				}
 			}
 			r.Body = &b
+		}
+		// a captured JSON object is only useful through its field: make sure it is looked at
+		for _, v := range live {
+			if v.ref.Kind == si.RefPostFld && chance(t, 50, "useObj") {
+				ref := v.ref
+				r.Headers = append(r.Headers, si.Header{Name: "X-Obj-" + ref.Req, Value: si.Tmpl{{Lit: "o="}, {Ref: &ref}}})
+				break
+			}
 		}
 		// every preprocessor variable must be observable at the target
 		for k, m := range r.Pre {
@@ -700,39 +729,49 @@ func genCase(t *rapid.T) Case {
 	}
 	c.Salt = rapid.StringMatching(`[a-z]{2}`).Draw(t, "salt")
 	defs := planRun(&c.Prog, c.Cycles)
-	nf := rapid.SampledFrom([]int{0, 1, 1, 1, 2, 2, 3}).Draw(t, "nFaults")
-	at := map[int]bool{}
-	hasClose := false
-	for i := 0; i < nf && len(defs) > 0; i++ {
-		n := rapid.IntRange(0, len(defs)-1).Draw(t, "faultAt")
-		if at[n] {
-			continue
-		}
-		at[n] = true
-		def := c.Prog.Request(defs[n])
-		kinds := []string{si.FaultClose, si.FaultStatus}
+	// faults that change the course of a scenario: (position, kind) pairs read off the fault-free plan
+	type fk struct {
+		n    int
+		kind string
+	}
+	var effective []fk
+	for n, name := range defs {
+		def := c.Prog.Request(name)
 		for _, p := range def.Posts {
 			if p.Kind == scengen.PostAssert {
 				if len(p.BodyHas) > 0 {
-					kinds = append(kinds, si.FaultNoMarker, si.FaultNoMarker)
+					effective = append(effective, fk{n, si.FaultNoMarker})
 				}
-				if len(p.HeaderHas) > 0 {
-					kinds = append(kinds, si.FaultNoHeader, si.FaultNoHeader)
+				if len(p.HeaderHas) > 0 && si.FaultApplies(def, si.FaultNoHeader) {
+					effective = append(effective, fk{n, si.FaultNoHeader})
 				}
 				if p.Status != 0 {
-					kinds = append(kinds, si.FaultStatus)
+					effective = append(effective, fk{n, si.FaultStatus})
 				}
 			}
 			for _, m := range p.Map {
-				if m.Expr == "$.obj" {
-					kinds = append(kinds, si.FaultObjString, si.FaultObjString, si.FaultObjString)
+				if m.Expr == "$.obj" && si.FaultApplies(def, si.FaultObjString) {
+					effective = append(effective, fk{n, si.FaultObjString}, fk{n, si.FaultObjString}, fk{n, si.FaultObjString})
 				}
 			}
 		}
-		if chance(t, 15, "anyFault") {
-			kinds = []string{si.FaultClose, si.FaultStatus, si.FaultNoMarker, si.FaultNoHeader, si.FaultObjString}
+	}
+	nf := []int{0, 1, 1, 1, 2, 2, 3}[uni(t, 0, 6, "nFaults")]
+	at := map[int]bool{}
+	hasClose := false
+	for i := 0; i < nf && len(defs) > 0; i++ {
+		var f FaultAt
+		if len(effective) > 0 && chance(t, 55, "effectiveFault") {
+			e := effective[uni(t, 0, len(effective)-1, "effectiveAt")]
+			f = FaultAt{N: e.n, Kind: e.kind}
+		} else {
+			f = FaultAt{N: rapid.IntRange(0, len(defs)-1).Draw(t, "faultAt")}
+			f.Kind = rapid.SampledFrom([]string{si.FaultClose, si.FaultStatus, si.FaultNoMarker, si.FaultNoHeader, si.FaultObjString}).Draw(t, "faultKind")
 		}
-		f := FaultAt{N: n, Kind: rapid.SampledFrom(kinds).Draw(t, "faultKind")}
+		if at[f.N] {
+			continue
+		}
+		at[f.N] = true
 		if f.Kind == si.FaultStatus {
 			f.Status = rapid.SampledFrom(faultStatuses).Draw(t, "faultStatus")
 		}
